@@ -298,6 +298,31 @@ def wiring(ctx: Any) -> List[Ob]:
     dd = cfg.nodes_calling('_remove_answers_from_queue')
     sd = cfg.nodes_calling('async_send')
     obs.append(ob(R, rdy, 'self._remove_answers_from_queue(answers); zc.async_send(...)', 'answers about to be sent are first removed from every later group', bool(dd) and bool(sd) and all(cfg.dominated_by_any(s, dd) for s in sd)))
+    # ... of every outgoing queue the instance has: the aggregation queue and the protected (one-second) queue hold answers
+    # to the same questions, and a record that goes out from one of them is a sighting for the other.  If it stays parked
+    # there it is multicast a second time inside the second that follows -- although a query that arrived in between is owed
+    # the one-second protection (F26)
+    zc_init = prog.func('zeroconf._core.Zeroconf.__init__')
+    queue_attrs = sorted({t.attr for t, st_ in attr_stores(zc_init.node) if isinstance(st_, ast.Assign) and isinstance(st_.value, ast.Call) and call_name(st_.value) == 'MulticastOutgoingQueue'})
+    if len(queue_attrs) < 2:
+        raise AnalysisError(f'anchor vanished: the outgoing queues of the instance (found {queue_attrs})')
+    me_r = rdy.params[0]
+    covered: Set[str] = set()
+    own = False
+    for c in walk_local_ordered(rdy.node):
+        if isinstance(c, ast.Call) and call_name(c) == '_remove_answers_from_queue' and isinstance(c.func, ast.Attribute):
+            recv = c.func.value
+            if isinstance(recv, ast.Name) and recv.id == me_r:
+                own = True
+            elif isinstance(recv, ast.Attribute) and recv.attr in queue_attrs:
+                covered.add(recv.attr)
+            elif isinstance(recv, ast.Name):
+                # a loop variable over a tuple / list of the instance's queues
+                for lp in walk_local_ordered(rdy.node):
+                    if isinstance(lp, ast.For) and isinstance(lp.target, ast.Name) and lp.target.id == recv.id and isinstance(lp.iter, (ast.Tuple, ast.List)):
+                        covered |= {e_.attr for e_ in lp.iter.elts if isinstance(e_, ast.Attribute) and e_.attr in queue_attrs}
+    ok_q = (own and len(covered) >= len(queue_attrs) - 1) or covered == set(queue_attrs)
+    obs.append(ob(R, rdy, f'_remove_answers_from_queue on self and on {queue_attrs}', 'what a queue sends is dropped from the groups still waiting in every outgoing queue of the instance, not only its own', ok_q, f'own queue: {own}; other queues covered: {sorted(covered)}'))
     # the while loop takes groups while due (send_after <= now)
     whiles = [n for n in walk_local_ordered(rdy.node) if isinstance(n, ast.While)]
     ok_w = False
